@@ -347,6 +347,22 @@ Example C20_F41_index_not_bound :
   snd (relay_tx sha256 o r) = true /\ snd (relay_tx sha256 o lie) = true /\ nth_error txs 2 = None.
 Proof. vm_compute. repeat split; reflexivity. Qed.
 
+(* relabellings far outside the tree: the split point of 2^32 + 1 leaves is 2^32, so the genuine
+   proof of the last of three transactions (the right half of the tree) also validates as index
+   2^32 of 2^32 + 1.  Its low 32 bits are 0: an answer "Index = 0" behind that proof is refused,
+   because the comparison is made on the proof's full 64-bit index (a client that narrowed it to
+   uint32 first would relay transaction 2 as transaction 0). *)
+Example C20_index_compared_without_truncation :
+  let r := honest_tx sha256 ex_txs 2 2 in
+  let p := tp_proof (t_proof r) in
+  let wide := {| tp_root := tp_root (t_proof r); tp_data := tp_data (t_proof r);
+                 tp_proof := {| pf_total := 2 ^ 32 + 1; pf_index := 2 ^ 32; pf_leaf_hash := pf_leaf_hash p;
+                                pf_aunts := pf_aunts p |} |} in
+  let lie := {| t_hash := t_hash r; t_height := 2; t_index := 0; t_tx := t_tx r; t_proof := wide |} in
+  txproof_validate sha256 (txs_root sha256 ex_txs) wide = true /\
+  snd (relay_tx sha256 ex_o lie) = false /\ (2 ^ 32) mod 2 ^ 32 = t_index lie.
+Proof. vm_compute. repeat split; reflexivity. Qed.
+
 (* the same in the other direction: the genuine proof of the LAST of three transactions
    (index 2 of 3) also validates as "index 1 of 2".  This is why C20_tx_binds assumes the true
    leaf count. *)
